@@ -1,0 +1,274 @@
+//go:build verif
+
+package verifhook
+
+import (
+	"reflect"
+	"sort"
+	"unsafe"
+)
+
+// State registry: every package that owns mutable package-level analysis
+// state registers a pointer to it (from a verif-tagged file). Snapshot()
+// keeps a deep copy of all registered roots; Restore() installs a fresh deep
+// copy of that snapshot, so that one process can run many independent
+// analyses, each starting from the state a new process has after init.
+
+type stateRoot struct {
+	name  string
+	ptr   reflect.Value // pointer to the package-level variable
+	stash reflect.Value // pointer to the pristine copy
+}
+
+var stateRoots []*stateRoot
+
+// Register adds a root; ptr must be a pointer to a package-level variable.
+func Register(name string, ptr any) {
+	v := reflect.ValueOf(ptr)
+	if v.Kind() != reflect.Ptr {
+		panic("verifhook.Register: not a pointer: " + name)
+	}
+
+	stateRoots = append(stateRoots, &stateRoot{name: name, ptr: v})
+}
+
+func RootNames() []string {
+	names := []string{}
+	for _, r := range stateRoots {
+		names = append(names, r.name)
+	}
+	sort.Strings(names)
+
+	return names
+}
+
+type sliceKey struct {
+	ptr uintptr
+	typ reflect.Type
+}
+
+type copier struct {
+	ptrs   map[sliceKey]reflect.Value
+	slices map[sliceKey]reflect.Value
+	maps   map[sliceKey]reflect.Value
+}
+
+func newCopier() *copier {
+	return &copier{
+		ptrs:   map[sliceKey]reflect.Value{},
+		slices: map[sliceKey]reflect.Value{},
+		maps:   map[sliceKey]reflect.Value{},
+	}
+}
+
+var plainCache = map[reflect.Type]bool{}
+
+// isPlain reports whether values of t contain no references (so that a
+// shallow copy is a deep copy).
+func isPlain(t reflect.Type) bool {
+	if p, ok := plainCache[t]; ok {
+		return p
+	}
+
+	var p bool
+
+	switch t.Kind() {
+	case reflect.Bool, reflect.Int, reflect.Int8, reflect.Int16, reflect.Int32,
+		reflect.Int64, reflect.Uint, reflect.Uint8, reflect.Uint16,
+		reflect.Uint32, reflect.Uint64, reflect.Uintptr, reflect.Float32,
+		reflect.Float64, reflect.Complex64, reflect.Complex128, reflect.String:
+		p = true
+	case reflect.Array:
+		p = isPlain(t.Elem())
+	case reflect.Struct:
+		p = true
+		for i := 0; i < t.NumField(); i++ {
+			if !isPlain(t.Field(i).Type) {
+				p = false
+				break
+			}
+		}
+	default:
+		p = false
+	}
+
+	plainCache[t] = p
+
+	return p
+}
+
+var refFieldCache = map[reflect.Type][]int{}
+
+// refFields lists the fields of struct type t that may hold references.
+func refFields(t reflect.Type) []int {
+	if idx, ok := refFieldCache[t]; ok {
+		return idx
+	}
+
+	idx := []int{}
+
+	for i := 0; i < t.NumField(); i++ {
+		if !isPlain(t.Field(i).Type) {
+			idx = append(idx, i)
+		}
+	}
+
+	refFieldCache[t] = idx
+
+	return idx
+}
+
+// writable returns a settable, non-read-only view of an addressable value
+// (needed for unexported struct fields).
+func writable(v reflect.Value) reflect.Value {
+	return reflect.NewAt(v.Type(), unsafe.Pointer(v.UnsafeAddr())).Elem()
+}
+
+func addressable(v reflect.Value) reflect.Value {
+	if v.CanAddr() {
+		return writable(v)
+	}
+
+	tmp := reflect.New(v.Type()).Elem()
+	tmp.Set(v)
+
+	return tmp
+}
+
+// copyInto deep-copies src into dst. dst must be addressable.
+func (c *copier) copyInto(dst, src reflect.Value) {
+	t := src.Type()
+
+	if isPlain(t) {
+		dst.Set(src)
+		return
+	}
+
+	switch t.Kind() {
+	case reflect.Ptr:
+		if src.IsNil() {
+			dst.Set(reflect.Zero(t))
+			return
+		}
+
+		key := sliceKey{src.Pointer(), t}
+		if known, ok := c.ptrs[key]; ok {
+			dst.Set(known)
+			return
+		}
+
+		fresh := reflect.New(t.Elem())
+		c.ptrs[key] = fresh
+		c.copyInto(fresh.Elem(), writable(src.Elem()))
+		dst.Set(fresh)
+
+	case reflect.Interface:
+		if src.IsNil() {
+			dst.Set(reflect.Zero(t))
+			return
+		}
+
+		inner := src.Elem()
+		fresh := reflect.New(inner.Type()).Elem()
+		c.copyInto(fresh, addressable(inner))
+		dst.Set(fresh)
+
+	case reflect.Map:
+		if src.IsNil() {
+			dst.Set(reflect.Zero(t))
+			return
+		}
+
+		key := sliceKey{src.Pointer(), t}
+		if known, ok := c.maps[key]; ok {
+			dst.Set(known)
+			return
+		}
+
+		fresh := reflect.MakeMapWithSize(t, src.Len())
+		c.maps[key] = fresh
+
+		iter := src.MapRange()
+		for iter.Next() {
+			k := reflect.New(t.Key()).Elem()
+			c.copyInto(k, addressable(iter.Key()))
+			v := reflect.New(t.Elem()).Elem()
+			c.copyInto(v, addressable(iter.Value()))
+			fresh.SetMapIndex(k, v)
+		}
+
+		dst.Set(fresh)
+
+	case reflect.Slice:
+		if src.IsNil() {
+			dst.Set(reflect.Zero(t))
+			return
+		}
+
+		key := sliceKey{src.Pointer(), t}
+		backing, ok := c.slices[key]
+		if !ok || backing.Cap() < src.Cap() {
+			full := src.Slice3(0, src.Cap(), src.Cap())
+			backing = reflect.MakeSlice(t, full.Len(), full.Len())
+			c.slices[key] = backing
+
+			switch isPlain(t.Elem()) {
+			case true:
+				reflect.Copy(backing, full)
+			default:
+				for i := 0; i < full.Len(); i++ {
+					c.copyInto(backing.Index(i), writable(full.Index(i)))
+				}
+			}
+		}
+
+		dst.Set(backing.Slice3(0, src.Len(), src.Cap()))
+
+	case reflect.Struct:
+		// shallow copy first, then deepen the fields that hold references
+		dst.Set(src)
+
+		for _, i := range refFields(t) {
+			f := src.Field(i)
+
+			switch f.Kind() {
+			case reflect.Ptr, reflect.Interface, reflect.Map, reflect.Slice:
+				if f.IsNil() {
+					continue
+				}
+			}
+
+			c.copyInto(writable(dst.Field(i)), writable(f))
+		}
+
+	case reflect.Array:
+		for i := 0; i < t.Len(); i++ {
+			c.copyInto(dst.Index(i), writable(src.Index(i)))
+		}
+
+	default:
+		// func, chan, unsafe pointer: shared by reference
+		dst.Set(src)
+	}
+}
+
+// Snapshot records the current value of every registered root.
+func Snapshot() {
+	c := newCopier()
+
+	for _, r := range stateRoots {
+		r.stash = reflect.New(r.ptr.Type().Elem())
+		c.copyInto(r.stash.Elem(), r.ptr.Elem())
+	}
+}
+
+// Restore installs a fresh deep copy of the snapshot into every root.
+func Restore() {
+	c := newCopier()
+
+	for _, r := range stateRoots {
+		fresh := reflect.New(r.ptr.Type().Elem())
+		c.copyInto(fresh.Elem(), r.stash.Elem())
+		r.ptr.Elem().Set(fresh.Elem())
+	}
+}
